@@ -105,7 +105,19 @@ ClsOf(ev) ==
   CASE ev.op = "posix_memalign" /\ (ev.al <= 0 \/ ~IsPow2(ev.al) \/ ev.al % PtrSize # 0) -> "einval"
     [] ev.op = "posix_memalign" /\ ev.n < 0 -> "enomem"
     [] ev.op \in {"reallocarray", "reallocarray_null", "reallocarray_ovf"} /\ ev.n < 0 -> "overflow"
+    [] ev.op \in CppAlloc /\ ev.n < 0 -> "enomem"       \* operator new with an unsatisfiable size
     [] OTHER -> "ok"
+
+\* ---------------------------------------------------------------- operator new that cannot be satisfied (no new-handler installed)
+\* The driver runs the call in a forked copy of the process and logs how it ended: `out` =
+\*   "null" returned nullptr | "nonnull" returned a pointer | "threw" std::bad_alloc | "threw_other" | "abort" killed by a
+\*   signal (`sig`) | "exit" left otherwise.
+\* The standard prescribes: the nothrow forms return nullptr, the throwing forms throw std::bad_alloc.  Upstream documents
+\* one deviation (src/alloc.c, "C++ new and new_aligned"): a library compiled as C cannot throw and aborts in the THROWING
+\* forms; that is accepted exactly there (ocfg.libcxx = 0) and nowhere else -- a nothrow form never aborts.
+NothrowNew == {"new_nothrow", "new_arr_nothrow", "new_al_nothrow", "new_arr_al_nothrow"}
+ThrowingNew == CppAlloc \ NothrowNew
+FailingNew(c) == c.ep \in CppAlloc /\ c.cls = "enomem"
 
 MapCall(ev) == [ep |-> ev.op] @@ [ev EXCEPT !.op = Fam(ev.op), !.cls = ClsOf(ev)]
 
@@ -123,7 +135,9 @@ Delta(c, r) ==
 
 PairStr(c) == (IF c.id \in DOMAIN origin THEN origin[c.id] ELSE "?") \o "->" \o c.ep
 
-OvInit == ApiInit /\ origin = <<>> /\ foreign = {} /\ ocfg = [mode |-> "none", lang |-> "c", have_mi |-> 1, page |-> 4096]
+DefaultCfg == [mode |-> "none", lang |-> "c", have_mi |-> 1, page |-> 4096, libcxx |-> 0]
+OvInit0 == ApiInit /\ origin = <<>> /\ foreign = {}
+OvInit == OvInit0 /\ ocfg = DefaultCfg
 
 \* ---------------------------------------------------------------- call of an entry point
 OvCall(ev) ==
@@ -144,6 +158,9 @@ OvGuards(c, r) ==
   /\ ((c.ep \in StrAlloc /\ ~r.null) => GD("StringCopied", c.ep, r.keep >= c.n))
   /\ ((c.ep \in AllocE \cup ReleaseE /\ c.used >= 0 /\ r.used >= 0 /\ (Produces(c, r) => r.inheap = 1)) =>
         GD("LiveCountDelta", c.ep, r.used - c.used = Delta(c, r)))
+  /\ ((FailingNew(c) /\ c.ep \in NothrowNew) => GD("NothrowNewReturnsNull", c.ep \o ":" \o r.out, r.out = "null" /\ r.null))
+  /\ ((FailingNew(c) /\ c.ep \in ThrowingNew) =>
+        GD("ThrowingNewThrows", c.ep \o ":" \o r.out, r.null /\ (r.out = "threw" \/ (ocfg.libcxx = 0 /\ r.out = "abort"))))
 
 OvRet(ev) ==
   /\ ev.t \in DOMAIN flux /\ flux[ev.t] # NoCall
